@@ -219,6 +219,9 @@ type solSpec struct {
 	Peer int `json:"peer"`
 	// Tpt constraint: 0 none, 1 the link's transport, 2 another transport
 	Tpt int `json:"tpt"`
+	// Rejecting: the solicitation is being torn down when the stream arrives: its resolver no longer takes values
+	// but the controller still has it registered
+	Rejecting bool `json:"rejecting,omitempty"`
 }
 
 type c31cCase struct {
@@ -240,7 +243,7 @@ func genC31c(t *rapid.T) c31cCase {
 	c := c31cCase{WarmLocal: rapid.SampledFrom([]int{0, 0, 3, 4}).Draw(t, "warmlocal"), InProto: rapid.IntRange(0, 3).Draw(t, "ip"), InCtx: rapid.IntRange(0, 3).Draw(t, "ic"), Concurrent: rapid.Bool().Draw(t, "conc")}
 	n := rapid.IntRange(1, 3).Draw(t, "n")
 	for i := 0; i < n; i++ {
-		s := solSpec{Peer: rapid.SampledFrom([]int{0, 0, 1, 2}).Draw(t, "peer"), Tpt: rapid.SampledFrom([]int{0, 0, 1, 2}).Draw(t, "tpt")}
+		s := solSpec{Peer: rapid.SampledFrom([]int{0, 0, 1, 2}).Draw(t, "peer"), Tpt: rapid.SampledFrom([]int{0, 0, 1, 2}).Draw(t, "tpt"), Rejecting: rapid.IntRange(0, 4).Draw(t, "rejecting") == 0}
 		if rapid.IntRange(0, 2).Draw(t, "same") != 0 {
 			s.Proto, s.Ctx = c.InProto, c.InCtx
 		} else {
@@ -323,6 +326,11 @@ func runSolicit(c c31cCase) (vals [][]link_solicit.SolicitMountedStream, strm *f
 		}
 		time.Sleep(time.Millisecond)
 	}
+	for i, s := range c.Locals {
+		if s.Rejecting && handlers[i] != nil {
+			handlers[i].SetReject(true)
+		}
+	}
 	if c.WarmLocal != 0 {
 		// an earlier link of another local identity with the same remote peer
 		wl := gen.PeerID(c.WarmLocal)
@@ -398,6 +406,11 @@ func aliasRoot(alias []int, j int) int {
 
 func (s solSpec) admits() bool { return s.Peer != 2 && s.Tpt != 2 }
 
+// sameRequest: the bus treats two solicitations as one request iff every parameter is equal
+func (s solSpec) sameRequest(o solSpec) bool {
+	return s.Proto == o.Proto && s.Ctx == o.Ctx && s.Peer == o.Peer && s.Tpt == o.Tpt
+}
+
 func checkC31c(c c31cCase) (o vstat.Outcome) {
 	vals, strm, err := runSolicit(c)
 	if err != nil {
@@ -405,8 +418,20 @@ func checkC31c(c c31cCase) (o vstat.Outcome) {
 		return
 	}
 	matching := 0
+	// a solicitation merged by the bus into an earlier equivalent one shares that one's resolver
+	rejecting := func(i int) bool {
+		for j := 0; j <= i; j++ {
+			if c.Locals[j].sameRequest(c.Locals[i]) {
+				return c.Locals[j].Rejecting
+			}
+		}
+		return false
+	}
 	for i, s := range c.Locals {
-		want := s.Proto == c.InProto && s.Ctx == c.InCtx && s.admits()
+		want := s.Proto == c.InProto && s.Ctx == c.InCtx && s.admits() && !rejecting(i)
+		if s.Proto == c.InProto && s.Ctx == c.InCtx && s.admits() && rejecting(i) {
+			o.Classes = append(o.Classes, "matching-local-refuses-value")
+		}
 		shifted := !(s.Proto == c.InProto && s.Ctx == c.InCtx) && solProtos[s.Proto]+solCtxs[s.Ctx] == solProtos[c.InProto]+solCtxs[c.InCtx]
 		if shifted {
 			o.Classes = append(o.Classes, "boundary-shifted-local")
@@ -475,7 +500,7 @@ func checkC31c(c c31cCase) (o vstat.Outcome) {
 var specC31c = vstat.Spec[c31cCase]{
 	Property: "C31",
 	Rule: "controller level: the real solicitation controller (fake directive instances / resolver handlers / mounted link) with 1-3 local solicitations (protocol/context from pools with boundary-shifted look-alikes, peer and transport constraints none / matching / excluding) and one incoming solicited stream for the remote side's (protocol, context); then every value created for that stream is accepted (sequentially or concurrently); " +
-		"oracle: at most one accepter obtains the stream however many local solicitations match; non-trivial = >=2 matching locals, shifted look-alikes or excluding constraints",
+		"a local solicitation may be in its teardown window (still registered, its resolver refuses values); oracle: at most one accepter obtains the stream however many local solicitations match, a solicitation that takes the value can accept it, and the accepted stream is not closed by the controller; non-trivial = >=2 matching locals, shifted look-alikes or excluding constraints",
 	Gen:      genC31c,
 	Check:    checkC31c,
 	Inflight: true,
